@@ -501,7 +501,7 @@ def eval_unusual(ctx, case):
         if extra:
             return Verdict.violated("mocks written for directories that are not configured: %s" % extra, obs, tags)
     if case["what"] != "nested-module-output":
-        v = core.go_vet(root)
+        v = core.go_compile(root)
         if v.timed_out:
             return Verdict.inconclusive("watchdog vet")
         if v.exit != 0:
